@@ -13,7 +13,44 @@ type client struct{ id string }
 var keysV = []string{"a", "b", "c"}
 var valsV = []string{"1", "2", "xy", "alice", "bob", "", strings.Repeat("x", 200)}
 
+// genScript: a Store-API handler may look the request's session up several times (guard middleware +
+// handler, each Get / work / Save / Release): one script in three has two or three such segments.
 func genScript(r *gen.Rand, api string, c cfgIn, ids []string, own string, calm bool) []string {
+	sc := genSegment(r, api, c, ids, own, calm, true, false)
+	if api != "s" {
+		return sc
+	}
+	segs := 1
+	switch r.Intn(9) {
+	case 0, 1:
+		segs = 2
+	case 2:
+		segs = 3
+	}
+	if calm && r.Chance(1, 3) {
+		segs = 2 + r.Intn(2)
+	}
+	destroyed := false
+	for _, a := range sc {
+		if a == "D" {
+			destroyed = true
+		}
+	}
+	for i := 1; i < segs; i++ {
+		seg := genSegment(r, api, c, ids, own, calm, false, destroyed)
+		for _, a := range seg {
+			if a == "D" {
+				destroyed = true
+			}
+		}
+		sc = append(sc, seg...)
+	}
+	return sc
+}
+
+// genSegment: one lookup (or none) followed by handler work; `first` = the segment that opens the script,
+// `noSave` = a Destroy happened earlier in the script (the oracle's domain has no Save after Destroy).
+func genSegment(r *gen.Rand, api string, c cfgIn, ids []string, own string, calm, first, noSave bool) []string {
 	var sc []string
 	pickID := func() string {
 		if own != "" && r.Chance(1, 2) {
@@ -22,7 +59,10 @@ func genScript(r *gen.Rand, api string, c cfgIn, ids []string, own string, calm 
 		return gen.Hex(gen.Pick(r, ids))
 	}
 	alive := true // a session variable is held and usable
-	if api == "s" {
+	if api == "s" && !first {
+		sc = append(sc, "G") // a later lookup of the same request
+	}
+	if api == "s" && first {
 		first := r.Intn(12)
 		if calm && own != "" && r.Chance(1, 3) {
 			first = 0
@@ -51,7 +91,7 @@ func genScript(r *gen.Rand, api string, c cfgIn, ids []string, own string, calm 
 		}
 	}
 	n := 1 + r.Intn(6)
-	destroyed := false
+	destroyed := noSave
 	for i := 0; i < n; i++ {
 		if !alive {
 			switch r.Intn(4) {
@@ -63,7 +103,7 @@ func genScript(r *gen.Rand, api string, c cfgIn, ids []string, own string, calm 
 				}
 			case 2:
 				sc = append(sc, "B"+pickID())
-				alive, destroyed = true, false
+				alive = true
 			default:
 			}
 			continue
